@@ -1,6 +1,7 @@
 SPECIFICATION RSpec
 CONSTANTS
   T = 8196
+  Window = 8196
   Dev = {}
   MaxLen = 5
   Small = 40
